@@ -10,6 +10,14 @@ package main
 // graph (calls are followed through a per-function summary of the locks a callee may acquire), lock leaks
 // (a return while a lock is held with no deferred unlock), and the list of value-returning functions.
 // Whatever the walk cannot follow marks the whole function `unknown` (treated as unguarded by the theorem).
+// Wait tracking (the wait-for graph of the deadlock obligation): every `X.Wait()` on a sync.WaitGroup (struct field of a
+// loaded package, or local variable) and every plain receive `<-x.ch` from a channel field (outside a multi-way select)
+// is listed with the locks held there: (function, held locks, waits-for); calls made while locks are held contribute the
+// waits their callees may perform (same closure as for the nesting pairs). The code units a group covers - a `go func`
+// literal or a function that calls `X.Done()` (resp. closes / sends on the channel) - are listed with the locks they may
+// acquire and the groups they may wait for, transitively through the calls they make. A `go func` literal is a thread of
+// its own: it starts with nothing held, may lock and unlock, and what it acquires is not charged to the function that
+// starts it.
 // Syntactic; go/parser + go/ast (+ go/types.ExprString, go/token) only; no type checker, no build.
 
 import (
@@ -34,7 +42,7 @@ type lsTarget struct {
 
 // the structures of the property (DESIGN C18). Mutex fields are detected from the struct declaration.
 var lsTargets = []lsTarget{
-	{"", "Cluster", []string{"alerts", "shutdownB"}},
+	{"", "Cluster", []string{"alerts", "shutdownB", "removed", "readyB"}},
 	{"pintracker/optracker", "OperationTracker", []string{"operations"}},
 	{"pintracker/optracker", "Operation", []string{"phase", "error", "ts"}},
 	{"monitor/metrics", "Store", []string{"byName"}},
@@ -108,6 +116,8 @@ type lsPkg struct {
 	tracked   map[string]map[string]bool   // target struct name -> tracked field names
 	fieldSet  map[string]bool              // all tracked field names of this package
 	lockSet   map[string]bool              // all mutex field names of this package
+	wgs       map[string]map[string]bool   // struct name -> sync.WaitGroup fields
+	chans     map[string]map[string]bool   // struct name -> channel fields
 }
 
 type lsType struct {
@@ -145,15 +155,19 @@ func (a *lsAnalysis) isExternal(t *lsType) bool {
 }
 
 type lsAnalysis struct {
-	module string
-	pkgs   map[string]*lsPkg // by dir
-	byPath map[string]*lsPkg // by import path
-	order  []*lsPkg
-	direct map[string]map[string]bool // fn key -> locks acquired directly ("pkg.Type.lock")
-	calls  map[string]map[string]bool // fn key -> callee fn keys
-	acq    map[string]map[string]bool // closure (second pass)
-	pass   int
-	out    *lsOut
+	module                   string
+	pkgs                     map[string]*lsPkg // by dir
+	byPath                   map[string]*lsPkg // by import path
+	order                    []*lsPkg
+	direct                   map[string]map[string]bool // fn key -> locks acquired directly ("pkg.Type.lock")
+	calls                    map[string]map[string]bool // fn key -> callee fn keys
+	acq                      map[string]map[string]bool // closure (second pass)
+	waitsD                   map[string]map[string]bool // unit key -> groups waited for directly
+	waitsC                   map[string]map[string]bool // closure (second pass)
+	labels                   map[string]string          // unit key -> printable name
+	direct1, calls1, waitsD1 map[string]map[string]bool // the complete first-pass maps (for printing call chains)
+	pass                     int
+	out                      *lsOut
 }
 
 type lsAccess struct {
@@ -166,6 +180,14 @@ type lsAccess struct {
 }
 type lsNest struct{ held, acquired, where string }
 type lsLeak struct{ fn, lock, what, pos string }
+type lsWait struct {
+	fn    string
+	held  []string
+	group string
+	pos   string
+}
+type lsMember struct{ group, unit, label, pos string }
+type lsCover struct{ group, target, where string } // a unit the group covers may acquire the lock / wait for the group `target`
 type lsOut struct {
 	accs      []lsAccess
 	nests     []lsNest
@@ -173,6 +195,9 @@ type lsOut struct {
 	accessors []string
 	tracked   []string
 	locks     []string
+	waits     []lsWait
+	members   []lsMember
+	covers    []lsCover
 }
 
 func lsAnalyze(module string, targets []lsTarget, srcs map[string]map[string]string) (*lsOut, error) {
@@ -185,7 +210,7 @@ func lsAnalyze(module string, targets []lsTarget, srcs map[string]map[string]str
 	for _, d := range dirs {
 		p := &lsPkg{dir: d, fset: token.NewFileSet(), types: map[string]ast.Expr{}, funcs: map[string]*ast.FuncDecl{},
 			imports: map[string]string{}, vars: map[string]*lsType{}, locks: map[string]map[string]string{}, tracked: map[string]map[string]bool{},
-			fieldSet: map[string]bool{}, lockSet: map[string]bool{}}
+			fieldSet: map[string]bool{}, lockSet: map[string]bool{}, wgs: map[string]map[string]bool{}, chans: map[string]map[string]bool{}}
 		var names []string
 		for n := range srcs[d] {
 			names = append(names, n)
@@ -248,6 +273,22 @@ func lsAnalyze(module string, targets []lsTarget, srcs map[string]map[string]str
 				continue
 			}
 			for _, fl := range st.Fields.List {
+				if lsIsWaitGroup(fl.Type) {
+					for _, nm := range fl.Names {
+						if p.wgs[tn] == nil {
+							p.wgs[tn] = map[string]bool{}
+						}
+						p.wgs[tn][nm.Name] = true
+					}
+				}
+				if _, isChan := fl.Type.(*ast.ChanType); isChan {
+					for _, nm := range fl.Names {
+						if p.chans[tn] == nil {
+							p.chans[tn] = map[string]bool{}
+						}
+						p.chans[tn][nm.Name] = true
+					}
+				}
 				k := lsMutexKind(fl.Type)
 				if k == "" {
 					continue
@@ -311,6 +352,8 @@ func lsAnalyze(module string, targets []lsTarget, srcs map[string]map[string]str
 		a.pass = pass
 		a.direct = map[string]map[string]bool{}
 		a.calls = map[string]map[string]bool{}
+		a.waitsD = map[string]map[string]bool{}
+		a.labels = map[string]string{}
 		a.out = &lsOut{tracked: out.tracked, locks: out.locks}
 		for _, p := range a.order {
 			var keys []string
@@ -323,32 +366,106 @@ func lsAnalyze(module string, targets []lsTarget, srcs map[string]map[string]str
 			}
 		}
 		if pass == 1 {
-			a.acq = map[string]map[string]bool{}
-			for k, d := range a.direct {
-				a.acq[k] = map[string]bool{}
-				for l := range d {
-					a.acq[k][l] = true
-				}
-			}
-			for changed := true; changed; {
-				changed = false
-				for k, cs := range a.calls {
-					for c := range cs {
-						for l := range a.acq[c] {
-							if a.acq[k] == nil {
-								a.acq[k] = map[string]bool{}
-							}
-							if !a.acq[k][l] {
-								a.acq[k][l] = true
-								changed = true
-							}
-						}
+			a.acq = lsClosure(a.direct, a.calls)
+			a.waitsC = lsClosure(a.waitsD, a.calls)
+			a.direct1, a.calls1, a.waitsD1 = a.direct, a.calls, a.waitsD
+		}
+	}
+	a.coverEdges()
+	return a.out, nil
+}
+
+// per unit: what it does directly, plus what everything it may call does
+func lsClosure(direct, calls map[string]map[string]bool) map[string]map[string]bool {
+	r := map[string]map[string]bool{}
+	for k, d := range direct {
+		r[k] = map[string]bool{}
+		for l := range d {
+			r[k][l] = true
+		}
+	}
+	for changed := true; changed; {
+		changed = false
+		for k, cs := range calls {
+			for c := range cs {
+				for l := range r[c] {
+					if r[k] == nil {
+						r[k] = map[string]bool{}
+					}
+					if !r[k][l] {
+						r[k][l] = true
+						changed = true
 					}
 				}
 			}
 		}
 	}
-	return a.out, nil
+	return r
+}
+
+// the call chain from a unit to a function that does `what` directly (breadth first), for the reader
+func (a *lsAnalysis) chain(unit, what string, direct map[string]map[string]bool) string {
+	type node struct{ k, path string }
+	seen := map[string]bool{unit: true}
+	q := []node{{unit, ""}}
+	for len(q) > 0 {
+		n := q[0]
+		q = q[1:]
+		if direct[n.k][what] {
+			return n.path
+		}
+		var cs []string
+		for c := range a.calls1[n.k] {
+			cs = append(cs, c)
+		}
+		sort.Strings(cs)
+		for _, c := range cs {
+			if !seen[c] {
+				seen[c] = true
+				q = append(q, node{c, n.path + " > " + c[strings.Index(c, "|")+1:]})
+			}
+		}
+	}
+	return " > ..."
+}
+
+// group -> lock and group -> group edges: what the code units a group covers may acquire / wait for
+func (a *lsAnalysis) coverEdges() {
+	// only groups somebody waits for can lie on a cycle; the others (channels that are only ever received from inside
+	// multi-way selects, ...) are left out of the table
+	awaited := map[string]bool{}
+	for _, x := range a.out.waits {
+		awaited[x.group] = true
+	}
+	var ms []lsMember
+	for _, m := range a.out.members {
+		if awaited[m.group] {
+			ms = append(ms, m)
+		}
+	}
+	a.out.members = ms
+	seen := map[string]bool{}
+	for _, m := range a.out.members {
+		if seen[m.group+"|"+m.unit] {
+			continue
+		}
+		seen[m.group+"|"+m.unit] = true
+		var ls, gs []string
+		for l := range a.acq[m.unit] {
+			ls = append(ls, l)
+		}
+		for g := range a.waitsC[m.unit] {
+			gs = append(gs, g)
+		}
+		sort.Strings(ls)
+		sort.Strings(gs)
+		for _, l := range ls {
+			a.out.covers = append(a.out.covers, lsCover{m.group, l, m.label + a.chain(m.unit, l, a.direct1)})
+		}
+		for _, g := range gs {
+			a.out.covers = append(a.out.covers, lsCover{m.group, g, m.label + a.chain(m.unit, g, a.waitsD1)})
+		}
+	}
 }
 
 func lsRecvType(fd *ast.FuncDecl) string {
@@ -363,6 +480,18 @@ func lsRecvType(fd *ast.FuncDecl) string {
 		return id.Name
 	}
 	return ""
+}
+
+func lsIsWaitGroup(t ast.Expr) bool {
+	if s, ok := t.(*ast.StarExpr); ok {
+		t = s.X
+	}
+	if se, ok := t.(*ast.SelectorExpr); ok {
+		if id, ok := se.X.(*ast.Ident); ok && id.Name == "sync" && se.Sel.Name == "WaitGroup" {
+			return true
+		}
+	}
+	return false
 }
 
 func lsMutexKind(t ast.Expr) string {
@@ -609,24 +738,31 @@ type lsFn struct { // per top-level function
 	why        string
 	sec        int
 	accIdx     []int
+	units      []string // the function itself and the `go func` literals in it
+	report     bool     // report the function as not followed even if it touches nothing else that is tracked
 }
 
 type lsWalker struct {
-	a     *lsAnalysis
-	pkg   *lsPkg
-	top   *lsFn
-	label string
-	env   map[string]*lsType
-	alias map[string]*lsLoc
-	held  []lsHeld
-	loops []lsFrame
-	stack []string // inlined callees
-	inLit int      // > 0 inside a function literal
+	a       *lsAnalysis
+	pkg     *lsPkg
+	top     *lsFn
+	label   string
+	env     map[string]*lsType
+	alias   map[string]*lsLoc
+	held    []lsHeld
+	loops   []lsFrame
+	stack   []string // inlined callees
+	inLit   int      // > 0 inside a function literal
+	unit    string   // the thread-level code unit being walked: the function, or a `go func` literal in it
+	noWait  int      // > 0 inside the communication clause of a multi-way select: a receive there is not a wait
+	inDefer int      // > 0 inside a deferred function literal: the locks held when it runs are not known
 }
 
 func (a *lsAnalysis) walkFunc(p *lsPkg, key string, fd *ast.FuncDecl) {
 	top := &lsFn{key: p.dir + "|" + key, label: p.name + "." + key}
-	w := &lsWalker{a: a, pkg: p, top: top, label: "", env: map[string]*lsType{}, alias: map[string]*lsLoc{}}
+	top.units = []string{top.key}
+	a.labels[top.key] = top.label
+	w := &lsWalker{a: a, pkg: p, top: top, label: "", env: map[string]*lsType{}, alias: map[string]*lsLoc{}, unit: top.key}
 	w.bindParams(fd, nil, nil)
 	if fd.Type.Results != nil && len(fd.Type.Results.List) > 0 {
 		a.out.accessors = append(a.out.accessors, p.name+"."+key)
@@ -637,7 +773,13 @@ func (a *lsAnalysis) walkFunc(p *lsPkg, key string, fd *ast.FuncDecl) {
 		for _, i := range top.accIdx {
 			a.out.accs[i].unknown = true
 		}
-		if len(top.accIdx) > 0 || a.direct[top.key] != nil {
+		touches := len(top.accIdx) > 0 || top.report
+		for _, u := range top.units {
+			if a.direct[u] != nil || a.waitsD[u] != nil {
+				touches = true
+			}
+		}
+		if touches {
 			a.out.leaks = append(a.out.leaks, lsLeak{top.label, "", "not followed: " + top.why, ""})
 		}
 	}
@@ -1133,10 +1275,10 @@ func (w *lsWalker) acquire(h lsHeld, p token.Pos) {
 	for _, x := range w.held {
 		w.a.out.nests = append(w.a.out.nests, lsNest{x.lock, h.lock, w.top.label + w.label + " " + ps})
 	}
-	if w.a.direct[w.top.key] == nil {
-		w.a.direct[w.top.key] = map[string]bool{}
+	if w.a.direct[w.unit] == nil {
+		w.a.direct[w.unit] = map[string]bool{}
 	}
-	w.a.direct[w.top.key][h.lock] = true
+	w.a.direct[w.unit][h.lock] = true
 	w.top.sec++
 	h.sec = w.top.sec
 	w.held = append(w.held, h)
@@ -1173,18 +1315,163 @@ func (w *lsWalker) checkLeaks(p token.Pos, what string) {
 	}
 }
 
+// who is executing: the function, or the `go func` literal in it
+func (w *lsWalker) who() string {
+	if w.unit != w.top.key {
+		return w.a.labels[w.unit] + w.label
+	}
+	return w.top.label + w.label
+}
+
+func (w *lsWalker) heldNames() []string {
+	var r []string
+	for _, h := range w.held {
+		r = append(r, h.lock)
+	}
+	return r
+}
+
+// the thread group a sync.WaitGroup expression stands for: a WaitGroup field of a struct of a loaded package
+// ("wg:pkg.Type.field"), or a local WaitGroup variable ("wg:pkg.Func.var")
+func (w *lsWalker) wgGroup(e ast.Expr) (string, bool) {
+	if pe, ok := e.(*ast.ParenExpr); ok {
+		return w.wgGroup(pe.X)
+	}
+	if u, ok := e.(*ast.UnaryExpr); ok && u.Op == token.AND {
+		return w.wgGroup(u.X)
+	}
+	switch x := e.(type) {
+	case *ast.SelectorExpr:
+		if p, tn := w.a.namedOf(w.typeOf(x.X)); p != nil && p.wgs[tn][x.Sel.Name] {
+			return "wg:" + p.name + "." + tn + "." + x.Sel.Name, true
+		}
+	case *ast.Ident:
+		if t := w.env[x.Name]; t != nil && t.e != nil && lsIsWaitGroup(t.e) {
+			return "wg:" + w.top.label + "." + x.Name, true
+		}
+	}
+	return "", false
+}
+
+// the group of a channel field of a struct of a loaded package: its members are the code units that close it or send on it
+func (w *lsWalker) chanGroup(e ast.Expr) (string, bool) {
+	if pe, ok := e.(*ast.ParenExpr); ok {
+		return w.chanGroup(pe.X)
+	}
+	if x, ok := e.(*ast.SelectorExpr); ok {
+		if p, tn := w.a.namedOf(w.typeOf(x.X)); p != nil && p.chans[tn][x.Sel.Name] {
+			return "ch:" + p.name + "." + tn + "." + x.Sel.Name, true
+		}
+	}
+	return "", false
+}
+
+// X.Wait() / X.Done() / X.Add(n) on a WaitGroup
+func (w *lsWalker) syncCall(c *ast.CallExpr) bool {
+	s, ok := c.Fun.(*ast.SelectorExpr)
+	if !ok {
+		return false
+	}
+	switch s.Sel.Name {
+	case "Wait", "Done", "Add":
+	default:
+		return false
+	}
+	g, ok := w.wgGroup(s.X)
+	if !ok {
+		return false
+	}
+	for _, a := range c.Args {
+		w.rd(a)
+	}
+	switch s.Sel.Name {
+	case "Wait":
+		w.wait(g, c.Pos())
+	case "Done":
+		w.member(g, c.Pos())
+	}
+	return true
+}
+
+// this code unit blocks here until the group has finished
+func (w *lsWalker) wait(group string, p token.Pos) {
+	if w.inDefer > 0 {
+		w.giveUp("wait inside a deferred function literal (the locks held when it runs are not followed)", p)
+	}
+	ps, _ := w.pos(p)
+	if w.a.waitsD[w.unit] == nil {
+		w.a.waitsD[w.unit] = map[string]bool{}
+	}
+	w.a.waitsD[w.unit][group] = true
+	w.a.out.waits = append(w.a.out.waits, lsWait{w.who(), w.heldNames(), group, ps})
+}
+
+// this code unit is one of the threads the group covers
+func (w *lsWalker) member(group string, p token.Pos) {
+	ps, _ := w.pos(p)
+	w.a.out.members = append(w.a.out.members, lsMember{group, w.unit, w.a.labels[w.unit], ps})
+}
+
+// `go func(...) {...}(...)`: a thread of its own. It starts with nothing held and may lock and unlock like a function;
+// what it acquires, calls and waits for is recorded under its own unit, not under the function that starts it
+// (its accesses stay in the function's part of the access table, with the locks the literal itself holds).
+func (w *lsWalker) goLit(f *ast.FuncLit, c *ast.CallExpr) {
+	for _, a := range c.Args {
+		w.rd(a)
+	}
+	ps, line := w.pos(f.Pos())
+	unit := fmt.Sprintf("%s$go%d", w.top.key, line)
+	w.top.units = append(w.top.units, unit)
+	w.a.labels[unit] = "goroutine " + w.top.label + w.label + " " + ps
+	cw := &lsWalker{a: w.a, pkg: w.pkg, top: w.top, label: w.label, env: map[string]*lsType{}, alias: map[string]*lsLoc{},
+		stack: w.stack, unit: unit}
+	for k, v := range w.env {
+		cw.env[k] = v
+	}
+	for k, v := range w.alias {
+		cw.alias[k] = v
+	}
+	for _, fl := range f.Type.Params.List {
+		for _, nm := range fl.Names {
+			cw.env[nm.Name] = &lsType{pkg: w.pkg, e: fl.Type}
+		}
+	}
+	cw.block(f.Body)
+	// a lock still held when the literal ends, with no deferred unlock, is a leak of that thread
+	for _, h := range cw.held {
+		if !h.deferred {
+			pe, _ := w.pos(f.Body.End())
+			w.a.out.leaks = append(w.a.out.leaks, lsLeak{w.a.labels[unit], h.lock, "still held at end of goroutine", pe})
+		}
+	}
+}
+
 // a call made while locks are held: nesting pairs towards everything the callee may acquire
 func (w *lsWalker) noteCall(c *ast.CallExpr) {
 	keys := w.calleeKeys(c)
 	if len(keys) == 0 {
 		return
 	}
-	if w.a.calls[w.top.key] == nil {
-		w.a.calls[w.top.key] = map[string]bool{}
+	if w.a.calls[w.unit] == nil {
+		w.a.calls[w.unit] = map[string]bool{}
 	}
 	ps, _ := w.pos(c.Pos())
 	for _, k := range keys {
-		w.a.calls[w.top.key][k] = true
+		w.a.calls[w.unit][k] = true
+		if w.a.pass == 2 {
+			// the waits the callee may perform happen with the caller's locks held
+			var gs []string
+			for g := range w.a.waitsC[k] {
+				gs = append(gs, g)
+			}
+			sort.Strings(gs)
+			if len(gs) > 0 && w.inDefer > 0 {
+				w.giveUp("call that may wait inside a deferred function literal (the locks held when it runs are not followed)", c.Pos())
+			}
+			for _, g := range gs {
+				w.a.out.waits = append(w.a.out.waits, lsWait{w.who() + " -> " + k[strings.Index(k, "|")+1:] + w.a.chain(k, g, w.a.waitsD1), w.heldNames(), g, ps})
+			}
+		}
 		if w.a.pass == 2 && len(w.held) > 0 {
 			var ls []string
 			for l := range w.a.acq[k] {
@@ -1281,15 +1568,25 @@ func (w *lsWalker) stmt(s ast.Stmt) {
 			}
 			return
 		}
+		if w.syncCall(st.Call) {
+			return
+		}
 		w.deferredOrGo(st.Call)
 	case *ast.GoStmt:
-		w.deferredOrGo(st.Call)
+		if fl, ok := st.Call.Fun.(*ast.FuncLit); ok {
+			w.goLit(fl, st.Call)
+		} else {
+			w.deferredOrGo(st.Call) // go f(...): f runs as a thread of its own; nothing of it is charged to this function
+		}
 	case *ast.AssignStmt:
 		w.assign(st)
 	case *ast.IncDecStmt:
 		w.rd(st.X)
 		w.wr(st.X)
 	case *ast.SendStmt:
+		if g, ok := w.chanGroup(st.Chan); ok {
+			w.member(g, st.Pos()) // a send releases a receiver
+		}
 		w.rd(st.Chan)
 		w.rd(st.Value)
 	case *ast.DeclStmt:
@@ -1435,7 +1732,13 @@ func (w *lsWalker) clauses(b *ast.BlockStmt, isSelect bool) {
 			if cc.Comm == nil {
 				hasDefault = true
 			}
+			if len(b.List) > 1 {
+				w.noWait++ // one of several alternatives: not a wait for this channel
+			}
 			w.stmt(cc.Comm)
+			if len(b.List) > 1 {
+				w.noWait--
+			}
 			body = cc.Body
 		}
 		term := false
@@ -1490,11 +1793,13 @@ func (w *lsWalker) deferredOrGo(c *ast.CallExpr) {
 	}
 	switch f := c.Fun.(type) {
 	case *ast.FuncLit:
-		// runs later (at function exit / in another goroutine): nothing is known to be held
+		// runs later (at function exit): nothing is known to be held
 		saved, savedLoops := w.held, w.loops
 		w.held, w.loops = nil, nil
 		w.inLit++
+		w.inDefer++
 		w.block(f.Body)
+		w.inDefer--
 		w.inLit--
 		w.held, w.loops = saved, savedLoops
 	case *ast.SelectorExpr:
@@ -1720,6 +2025,11 @@ func (w *lsWalker) rd(e ast.Expr) {
 			w.giveUp("mutex field used other than by Lock/Unlock/RLock/RUnlock statements", x.Pos())
 			return
 		}
+		if p, tn := w.a.namedOf(w.typeOf(x.X)); p != nil && p.wgs[tn][x.Sel.Name] {
+			w.giveUp("WaitGroup field used other than by Add/Done/Wait calls", x.Pos())
+			w.top.report = true
+			return
+		}
 		if w.useBase(x.X, "KRd") {
 			return
 		}
@@ -1755,6 +2065,11 @@ func (w *lsWalker) rd(e ast.Expr) {
 			if _, _, _, _, ok := w.lockSel(x.X); ok {
 				w.giveUp("address of a mutex field taken", x.Pos())
 				return
+			}
+		}
+		if x.Op == token.ARROW && w.noWait == 0 {
+			if g, ok := w.chanGroup(x.X); ok {
+				w.wait(g, x.Pos())
 			}
 		}
 		w.rd(x.X)
@@ -1798,8 +2113,17 @@ func (w *lsWalker) call(c *ast.CallExpr) {
 		w.giveUp("lock operation "+op+" used inside an expression", c.Pos())
 		return
 	}
+	if w.syncCall(c) {
+		return
+	}
 	if id, ok := c.Fun.(*ast.Ident); ok && w.env[id.Name] == nil {
 		switch id.Name {
+		case "close":
+			if len(c.Args) == 1 {
+				if g, ok := w.chanGroup(c.Args[0]); ok {
+					w.member(g, c.Pos()) // whoever closes the channel is whom its receivers wait for
+				}
+			}
 		case "len", "cap":
 			if len(c.Args) == 1 {
 				if l, isField := w.baseLoc(c.Args[0]); l != nil {
@@ -1895,13 +2219,90 @@ func (w *lsWalker) inline(key string, fd *ast.FuncDecl, c *ast.CallExpr) {
 	}
 	name := key[strings.Index(key, "|")+1:]
 	cw := &lsWalker{a: w.a, pkg: w.pkg, top: w.top, label: w.label + ">" + name, env: map[string]*lsType{}, alias: map[string]*lsLoc{},
-		held: lsCopyHeld(w.held), stack: append(append([]string{}, w.stack...), sig), inLit: w.inLit}
+		held: lsCopyHeld(w.held), stack: append(append([]string{}, w.stack...), sig), inLit: w.inLit, unit: w.unit, noWait: w.noWait, inDefer: w.inDefer}
 	cw.bindParams(fd, c.Args, w)
 	n := len(cw.held)
 	cw.block(fd.Body)
 	if len(cw.held) != n {
 		w.giveUp("callee changes the caller's lockset", c.Pos())
 	}
+}
+
+// ---------------------------------------------------------------------------------------------------
+// the wait-for graph (the Coq obligation wait_graph_acyclic recomputes it from the tables; this copy serves the
+// self-test and a comment in the generated file)
+// ---------------------------------------------------------------------------------------------------
+
+type lsEdge struct{ from, to, where string }
+
+func (o *lsOut) waitEdges() []lsEdge {
+	var es []lsEdge
+	for _, n := range o.nests {
+		es = append(es, lsEdge{n.held, n.acquired, n.where})
+	}
+	for _, w := range o.waits {
+		for _, h := range w.held {
+			es = append(es, lsEdge{h, w.group, w.fn + " " + w.pos})
+		}
+	}
+	for _, c := range o.covers {
+		es = append(es, lsEdge{c.group, c.target, c.where})
+	}
+	return es
+}
+
+// some cycle of the graph (as its edges), or nil
+func lsFindCycle(es []lsEdge) []lsEdge {
+	out := map[string][]lsEdge{}
+	var nodes []string
+	for _, e := range es {
+		if out[e.from] == nil {
+			nodes = append(nodes, e.from)
+		}
+		out[e.from] = append(out[e.from], e)
+	}
+	state := map[string]int{} // 1 = on the stack, 2 = finished
+	var stack []lsEdge
+	var found []lsEdge
+	var dfs func(n string) bool
+	dfs = func(n string) bool {
+		state[n] = 1
+		for _, e := range out[n] {
+			if state[e.to] == 1 {
+				i := 0
+				for j, s := range stack {
+					if s.from == e.to {
+						i = j
+						break
+					}
+				}
+				if n == e.to {
+					found = []lsEdge{e}
+				} else {
+					found = append(append([]lsEdge{}, stack[i:]...), e)
+				}
+				return true
+			}
+			if state[e.to] == 0 {
+				stack = append(stack, e)
+				if dfs(e.to) {
+					return true
+				}
+				stack = stack[:len(stack)-1]
+			}
+		}
+		state[n] = 2
+		return false
+	}
+	for _, n := range nodes {
+		if state[n] == 0 {
+			stack = nil
+			if dfs(n) {
+				return found
+			}
+		}
+	}
+	return nil
 }
 
 // ---------------------------------------------------------------------------------------------------
@@ -1949,6 +2350,42 @@ func (o *lsOut) coq() string {
 	}
 	b.WriteString("(* locks still held at a return with no deferred unlock, unmatched unlocks, functions not followed *)\n")
 	b.WriteString("Definition leaks : list (string * string * string * string) := [\n  " + strings.Join(lk, ";\n  ") + "].\n\n")
+	b.WriteString("(* waits: (function [-> callee chain], locks held there, group waited for, position). wg:T.f = the goroutines covered by the\n")
+	b.WriteString("   sync.WaitGroup field f of T (X.Wait()); ch:T.f = whoever closes / sends on the channel field f (plain receive) *)\n")
+	var ws []string
+	dupw := map[string]bool{}
+	for _, x := range o.waits {
+		line := fmt.Sprintf("(%s, %s, %s, %s)", coqStr(x.fn), coqStrList(x.held), coqStr(x.group), coqStr(x.pos))
+		if !dupw[line] {
+			dupw[line] = true
+			ws = append(ws, line)
+		}
+	}
+	b.WriteString("Definition waits : list (string * list string * string * string) := [\n  " + strings.Join(ws, ";\n  ") + "].\n\n")
+	b.WriteString("(* the code units each group covers: a `go func` literal or a function that calls X.Done() (closes / sends on the channel) *)\n")
+	var ms []string
+	dupm := map[string]bool{}
+	for _, m := range o.members {
+		line := fmt.Sprintf("(%s, %s, %s)", coqStr(m.group), coqStr(m.label), coqStr(m.pos))
+		if !dupm[m.group+"|"+m.unit] {
+			dupm[m.group+"|"+m.unit] = true
+			ms = append(ms, line)
+		}
+	}
+	b.WriteString("Definition members : list (string * string * string) := [\n  " + strings.Join(ms, ";\n  ") + "].\n\n")
+	b.WriteString("(* (group, lock a covered unit may acquire | group a covered unit may wait for, the unit and the call chain) *)\n")
+	var cs []string
+	for _, c := range o.covers {
+		cs = append(cs, fmt.Sprintf("(%s, %s, %s)", coqStr(c.group), coqStr(c.target), coqStr(c.where)))
+	}
+	b.WriteString("Definition covers : list (string * string * string) := [\n  " + strings.Join(cs, ";\n  ") + "].\n\n")
+	if cyc := lsFindCycle(o.waitEdges()); cyc != nil {
+		b.WriteString("(* the translator's own search finds a cycle in the wait-for graph (the obligation wait_graph_acyclic decides):\n")
+		for _, e := range cyc {
+			b.WriteString("     " + strings.ReplaceAll(e.from+" -> "+e.to+"   ["+e.where+"]", "*)", "* )") + "\n")
+		}
+		b.WriteString("*)\n\n")
+	}
 	b.WriteString("(* functions that return values *)\n")
 	hasAcc := map[string]bool{}
 	for _, a := range o.accs {
